@@ -15,7 +15,7 @@ from sim import devices
 from sim.canon import Log, dec_table, enc_table, canon_rows, canon_row, enc
 from sim.catalogue import (f_reducer, f_groupmapper, f_fold, _count)
 from sim.core import outcome, ddmin_lists
-from sim.devices import SimTable
+from sim.devices import SimTable, SimSourceError
 from sim.gen import gen_table
 from sim.loader import load_petl
 
@@ -227,6 +227,12 @@ def gen_case(rng, tier, g):
         elif r < 0.65:
             steps.append(['PASS', rng.randrange(nviews),
                           rng.randint(0, n + 1)])
+        elif r < 0.73:
+            # the next pass over this source fails part-way: a failed pass
+            # is not a completed one and must not be replayed
+            si = rng.randrange(op.nsrc)
+            steps.append(['ARM', si, rng.choice([1, 2, 3, max(1, n // 2), n,
+                                                 n + 1])])
         else:
             si = rng.randrange(op.nsrc)
             kind = rng.choice(['append', 'delete', 'replace'])
@@ -387,11 +393,20 @@ def _run_history(e, case, log, sb, probes):
     any_completed = False
     npass = 0
     what = '%s(cache=%r, %r)' % (case['op'], cache, case['kw'])
-    for step in case['steps']:
+    steps = list(case['steps'])
+    last_pass = max(i for i, st in enumerate(steps) if st[0] == 'PASS')
+    for si_, step in enumerate(steps):
+        if si_ == last_pass:
+            for s_ in srcs:
+                s_.disarm()         # faults stop before the last pass
         if step[0] == 'EDIT':
             _, si, kind, idx, row = step
             _apply_edit(tables[si], kind, idx, dec_table([row])[0])
             log.add('edit', si, kind, idx)
+            continue
+        if step[0] == 'ARM':
+            srcs[step[1]].arm(step[2], passes=1)
+            log.add('arm', step[1], step[2])
             continue
         _, vi, upto = step
         npass += 1
@@ -414,6 +429,12 @@ def _run_history(e, case, log, sb, probes):
                         break
                 if hasattr(it, 'close'):
                     it.close()
+        except SimSourceError:
+            # injected: this pass failed, it counts as an abandoned one
+            probes['pass-failed-by-injection'] = 1
+            log.add('pass-failed', vi)
+            it = None
+            continue
         except Exception as ex:
             # inapplicable from here on if the default call on the current
             # contents raises as well (e.g. an edit emptied the table and the
@@ -574,7 +595,7 @@ def selfcheck(agg):
         'knob:buffersize', 'knob:cache', 'knob:tempdir', 'knob:cfg',
         'knob:presorted', 'judged:cache-false',
         'judged:after-completed-pass', 'judged:nondeterministic',
-        'abandoned-pass']
+        'abandoned-pass', 'pass-failed-by-injection']
     for p in want:
         if not agg['probes'].get(p):
             errs.append('probe never hit: ' + p)
